@@ -859,14 +859,17 @@ def diagonal(a, offset=0, axis1=0, axis2=1):
 
     diag_axes = [axis for axis in range(len(a.shape)) if axis != axis1 and axis != axis2] + [axis1]
     diag_shape = [a.shape[axis] for axis in diag_axes]
-    diag_shape[-1] -= abs(offset)
+    diag_shape[-1] = max(diag_shape[-1] - abs(offset), 0)
 
     diag_idx = _diagonal_idx(a.coords, axis1, axis2, offset)
 
-    diag_coords = [a.coords[axis][diag_idx] for axis in diag_axes]
+    # the position along the diagonal is the axis1 coordinate above the main diagonal
+    # and the axis2 coordinate below it
+    pos_axes = diag_axes[:-1] + [axis1 if offset >= 0 else axis2]
+    diag_coords = [a.coords[axis][diag_idx] for axis in pos_axes]
     diag_data = a.data[diag_idx]
 
-    return COO(diag_coords, diag_data, diag_shape)
+    return COO(diag_coords, diag_data, diag_shape, fill_value=a.fill_value)
 
 
 def diagonalize(a, axis=0):
@@ -918,6 +921,7 @@ def diagonalize(a, axis=0):
     from .core import COO, as_coo
 
     a = as_coo(a)
+    check_zero_fill_value(a)
 
     diag_shape = a.shape + (a.shape[axis],)
     diag_coords = np.vstack([a.coords, a.coords[axis]])
